@@ -216,6 +216,11 @@ impl Callbacks for Facts {
         if crate_name.starts_with("build_script") {
             return Compilation::Continue;
         }
+        if let Ok(only) = std::env::var("LINFA_FACTS_ONLY") {
+            if only.replace('-', "_") != crate_name {
+                return Compilation::Continue;
+            }
+        }
         let t0 = std::time::Instant::now();
         let mut cx = Cx::new(tcx);
         let mut adts = vec![];
